@@ -283,6 +283,23 @@ def expand_combinators(records, strip):
                 continue
             log.setdefault(strip(r['path']), []).append(cpath)
             guard += 1
+    # a closure whose every use was expanded lives in its host now: it is no separate program point any more
+    expanded = {c_ for v in log.values() for c_ in v}
+    if expanded:
+        still_used = set()
+        for r in records:
+            for b in r['blocks']:
+                t = b['t']
+                if t['k'] != 'call':
+                    continue
+                for a in t['args']:
+                    pl = a.get('m') or a.get('c')
+                    if pl is not None:
+                        ty = r['locals'][pl['l']] if not pl.get('p') else pl.get('ty')
+                        if isinstance(ty, str) and ty.startswith('closure:') and strip(ty[len('closure:'):]) in expanded:
+                            still_used.add(strip(ty[len('closure:'):]))
+        drop = expanded - still_used
+        records = [r for r in records if strip(r['path']) not in drop]
     return records, log
 
 
